@@ -274,9 +274,9 @@ B("c19-simfile-ext-sma", "C19", EXT, 'SIMFILE = (".ssc", ".sm")', 'SIMFILE = (".
 B("c19-flag-stored-late", "C19", DIR, "        self._ignore_duplicate = ignore_duplicate\n\n        for simfile_item in self._dirlist:", "        self._ignore_duplicate = False\n\n        for simfile_item in self._dirlist:", "ignore_duplicate")
 
 # --------------------------------------------------------------------------- C20
-B("c20-unlisted-path", "C20", ASSETS, "            case_insensitive_path = self._get_case_insensitive_path(full_path)\n            if case_insensitive_path:", "            case_insensitive_path = full_path\n            if case_insensitive_path:", "answer")
-B("c20-one-side-lower", "C20", ASSETS, "                if item.lower() == filename_lower:", "                if item == filename_lower:", "case-insensitively")
-B("c20-no-cache-on-none", "C20", ASSETS, "        return self._cache_path(prop, None)", "        return None", "return")
+B("c20-unlisted-path", "C20", ASSETS, "            case_insensitive_path = self._get_case_insensitive_path(full_path)\n            if case_insensitive_path:", "            case_insensitive_path = full_path\n            if case_insensitive_path:", "listing lookup")
+B("c20-one-side-lower", "C20", ASSETS, "                if item.lower() == filename_lower:", "                if item == filename_lower:", "lower-cased")
+B("c20-no-cache-on-none", "C20", ASSETS, "        return self._cache_path(prop, None)", "        return None", "kinds of answer")
 B("c20-preset-bn-unanchored", "C20", ASSETS, '        presets=["banner", "bn$"],', '        presets=["banner", "bn"],', "BANNER")
 B("c20-preset-jacket-anchor", "C20", ASSETS, '        presets=["^jk_", "jacket", "albumart"],', '        presets=["jk_", "jacket", "albumart"],', "JACKET")
 B("c20-music-by-preset", "C20", ASSETS, "        extensions=extensions.AUDIO,\n        match_by_extension=True,", "        extensions=extensions.AUDIO,\n        presets=[\"music\"],", "MUSIC")
@@ -285,7 +285,7 @@ B("c20-image-order", "C20", EXT, 'IMAGE = (".png", ".jpg", ".jpeg", ".gif", ".bm
 B("c20-banner-no-exists", "C20", DIR, "            if self.filesystem.exists(parent_banner):\n                return parent_banner", "            return parent_banner", "exists")
 B("c20-banner-stage-order", "C20", DIR, "        for image_type in extensions.IMAGE:\n            for pack_item in self.filesystem.listdir(self.pack_dir):\n                if extensions.match(pack_item, image_type):\n                    return self._path.join(self.pack_dir, pack_item)\n", "        for pack_item in self.filesystem.listdir(self.pack_dir):\n            for image_type in extensions.IMAGE:\n                if extensions.match(pack_item, image_type):\n                    return self._path.join(self.pack_dir, pack_item)\n", "priority")
 B("c20-wrong-property-key", "C20", ASSETS, '        return self._asset_property("CDTITLE")', '        return self._asset_property("CDIMAGE")', "cdtitle")
-B("c20-specified-after-pattern", "C20", ASSETS, "        specified_path = self.simfile.get(prop)\n        if specified_path:\n            full_path = self._path.join(self.simfile_dir, specified_path)\n            case_insensitive_path = self._get_case_insensitive_path(full_path)\n            if case_insensitive_path:\n                return self._cache_path(prop, case_insensitive_path, absolute=True)\n\n        asset_definition = ASSET_DEFINITIONS[prop]\n        for file_in_simfile_dir in self._dirlist:\n            if asset_definition.matches(file_in_simfile_dir):\n                return self._cache_path(prop, file_in_simfile_dir)\n", "        asset_definition = ASSET_DEFINITIONS[prop]\n        for file_in_simfile_dir in self._dirlist:\n            if asset_definition.matches(file_in_simfile_dir):\n                return self._cache_path(prop, file_in_simfile_dir)\n\n        specified_path = self.simfile.get(prop)\n        if specified_path:\n            full_path = self._path.join(self.simfile_dir, specified_path)\n            case_insensitive_path = self._get_case_insensitive_path(full_path)\n            if case_insensitive_path:\n                return self._cache_path(prop, case_insensitive_path, absolute=True)\n", "specified path is tried first")
+B("c20-specified-after-pattern", "C20", ASSETS, "        specified_path = self.simfile.get(prop)\n        if specified_path:\n            full_path = self._path.join(self.simfile_dir, specified_path)\n            case_insensitive_path = self._get_case_insensitive_path(full_path)\n            if case_insensitive_path:\n                return self._cache_path(prop, case_insensitive_path, absolute=True)\n\n        asset_definition = ASSET_DEFINITIONS[prop]\n        for file_in_simfile_dir in self._dirlist:\n            if asset_definition.matches(file_in_simfile_dir):\n                return self._cache_path(prop, file_in_simfile_dir)\n", "        asset_definition = ASSET_DEFINITIONS[prop]\n        for file_in_simfile_dir in self._dirlist:\n            if asset_definition.matches(file_in_simfile_dir):\n                return self._cache_path(prop, file_in_simfile_dir)\n\n        specified_path = self.simfile.get(prop)\n        if specified_path:\n            full_path = self._path.join(self.simfile_dir, specified_path)\n            case_insensitive_path = self._get_case_insensitive_path(full_path)\n            if case_insensitive_path:\n                return self._cache_path(prop, case_insensitive_path, absolute=True)\n", "kinds of answer")
 B("c20-isdir-guard-dropped", "C20", ASSETS, "        if self.filesystem.isdir(containing_dir):\n            for item in self.filesystem.listdir(containing_dir):\n                if item.lower() == filename_lower:\n                    return self._path.join(containing_dir, item)", "        for item in self.filesystem.listdir(containing_dir):\n            if item.lower() == filename_lower:\n                return self._path.join(containing_dir, item)", "directory")
 B("c20-cache-not-stored", "C20", ASSETS, "            if absolute:\n                self._cache[key] = self._path.normpath(value)\n", "            if absolute:\n                return self._path.normpath(value)\n", "stored in the cache")
 
